@@ -3,7 +3,8 @@ import NfcVerif.Lemmas.Retry
 # C16 - Tag commands retry transient errors and fail only as TagCommandError
 
 Statements only; proofs are in `Lemmas/Retry.lean`, the model in `Model/Retry.lean`.
-All theorems about operations are for the repaired code (`Cfg.repaired`: fixes/C16/0001-0005);
+`tlv` (whether tt1.read_tlv swallows the command error for the whole TLV: repair of C08) is universally
+quantified.  All theorems about operations are for the repaired code (`Cfg.repaired`: fixes/C16/0001-0005);
 the as-found behaviour is kept in the model (`Cfg.asFound`) and shown by the examples at the end.
 -/
 namespace NfcVerif.C16
@@ -70,12 +71,12 @@ Standard, FeliCa Lite, Type 4A/B over ISO-DEP with any retry budget): every oper
 command sequence `l` and EVERY fault script of any length - timeouts, transmission and protocol
 errors, unknown CommunicationError classes, lost commands and lost answers, cut Type 3 answers -
 ends with a value or a TagCommandError. -/
-theorem op_outcome_documented (fam op : String) (l : Phases) (v : Val) (nret : Nat) (P : Prog)
-    (script : List Att) (h : prog Cfg.repaired fam op l v nret = some P)
+theorem op_outcome_documented (tlv : Bool) (fam op : String) (l : Phases) (v : Val) (nret : Nat) (P : Prog)
+    (script : List Att) (h : prog Cfg.repaired tlv fam op l v nret = some P)
     (hf : fam = "t3" ∨ fam = "t3std" ∨ fam = "lite" ∨ fam = "t4") :
     Documented (run Cfg.repaired P 0 (start script)).1 :=
   run_documented Robust True (fun _ _ h => h) P 0 (start script)
-    (prog_clean_robust fam op l v nret P h hf) (Or.inl trivial)
+    (prog_clean_robust tlv fam op l v nret P h hf) (Or.inl trivial)
 
 /-- **documented outcome, all families** (partial): every operation of every modelled family
 (Type 1, 2, 3, 4, generic and vendor classes) ends with a value or a TagCommandError for every
@@ -83,12 +84,12 @@ fault script made of timeout / transmission / protocol errors and cut answers.  
 excluded (only relevant for the Type 1 and Type 2 families, see `op_outcome_documented`): scripts in
 which `exchange` raises another CommunicationError class three times in a row; there Type 1/2
 raise RuntimeError (`unknown_commerror_counterexample`, open finding pinned by the test-suite). -/
-theorem op_outcome_documented_partial (fam op : String) (l : Phases) (v : Val) (nret : Nat) (P : Prog)
-    (script : List Att) (h : prog Cfg.repaired fam op l v nret = some P)
+theorem op_outcome_documented_partial (tlv : Bool) (fam op : String) (l : Phases) (v : Val) (nret : Nat) (P : Prog)
+    (script : List Att) (h : prog Cfg.repaired tlv fam op l v nret = some P)
     (hb : Benign (start script)) :
     Documented (run Cfg.repaired P 0 (start script)).1 :=
   run_documented (fun _ => True) False (fun h => h.elim) P 0 (start script)
-    (prog_clean_all fam op l v nret P h) (Or.inr hb)
+    (prog_clean_all tlv fam op l v nret P h) (Or.inr hb)
 
 /-- Type 3 `format` (the probing loops take their decisions from errors): for every tag, with and
 without wipe, for every fault script. -/
@@ -101,10 +102,10 @@ theorem t3_format_documented (t : T3Tag) (wipe : Bool) (script : List Att) :
 exchange log of every run every primitive call consists of unanswered attempts followed by at most
 one more attempt, three at most.  (A retried *unanswered* write may have been executed by the tag
 before its answer was lost and is then executed again - inherent, see `lost_answer_write_twice`.) -/
-theorem write_not_duplicated (fam op : String) (l : Phases) (v : Val) (nret : Nat) (P : Prog)
-    (script : List Att) (h : prog Cfg.repaired fam op l v nret = some P) (h4 : fam ≠ "t4") :
+theorem write_not_duplicated (tlv : Bool) (fam op : String) (l : Phases) (v : Val) (nret : Nat) (P : Prog)
+    (script : List Att) (h : prog Cfg.repaired tlv fam op l v nret = some P) (h4 : fam ≠ "t4") :
     LogOK (run Cfg.repaired P 0 (start script)).2.log :=
-  run_log Cfg.repaired LoopKind (fun _ h => h) P 0 (start script) (prog_clean fam op l v nret P h h4)
+  run_log Cfg.repaired LoopKind (fun _ h => h) P 0 (start script) (prog_clean tlv fam op l v nret P h h4)
     (by intro inv hm; cases hm)
 
 /-! ## counter-examples (open findings) and as-found behaviour -/
@@ -116,47 +117,47 @@ def bl : Att := .flt .brokenLink false
 /-- open finding `t1t2-unknown-commerror-runtimeerror` (F31, pinned by the test-suite): three
 BrokenLinkError in a row end the Type 2 presence check with RuntimeError. -/
 theorem unknown_commerror_counterexample :
-    (prog Cfg.repaired "t2" "present" [[rd0]] .true_ 0).map (fun P => (run Cfg.repaired P 0 (start [bl, bl, bl])).1)
+    (prog Cfg.repaired true "t2" "present" [[rd0]] .true_ 0).map (fun P => (run Cfg.repaired P 0 (start [bl, bl, bl])).1)
       = some (.exc .runtime) := by decide +kernel
 
 /-- open finding `t4-presence-check-not-retried` (pinned by the test-suite): one timeout on the
 R(NAK) presence check of a Type 4 tag gives False. -/
 theorem presence_check_not_retried :
-    (prog Cfg.repaired "t4" "present" [[⟨⟨"nak", false⟩, .ok⟩]] .true_ 5).map
+    (prog Cfg.repaired true "t4" "present" [[⟨⟨"nak", false⟩, .ok⟩]] .true_ 5).map
       (fun P => (run Cfg.repaired P 0 (start [.flt .timeout false])).1) = some (.ok .false_) := by decide +kernel
 
 /-- a write whose answer is lost is executed again by the retry (inherent) -/
 theorem lost_answer_write_twice :
-    (prog Cfg.repaired "t2" "write" [[wr4]] .unit 0).map
+    (prog Cfg.repaired true "t2" "write" [[wr4]] .unit 0).map
       (fun P => (run Cfg.repaired P 0 (start [.flt .timeout true])).2.applied.map (·.tok)) = some ["w4", "w4"] := by
   decide +kernel
 
 /-! as found (before fixes/C16): F17, F31 (Type 3), F32, sector select assert, ISO-DEP unknown CommunicationError -/
-example : (prog Cfg.asFound "t3" "write" [[rd0], [wr4]] .unit 0).map
+example : (prog Cfg.asFound false "t3" "write" [[rd0], [wr4]] .unit 0).map
     (fun P => (run Cfg.asFound P 0 (start [.flt .timeout false, .flt .timeout false, .flt .timeout false])).1)
     = some (.exc .type_) := by decide +kernel
-example : (prog Cfg.asFound "t3" "ndef" [[], [rd0]] .ndef 0).map (fun P => (run Cfg.asFound P 0 (start [bl, bl, bl])).1)
+example : (prog Cfg.asFound false "t3" "ndef" [[], [rd0]] .ndef 0).map (fun P => (run Cfg.asFound P 0 (start [bl, bl, bl])).1)
     = some (.exc .unbound) := by decide +kernel
-example : (prog Cfg.asFound "t3" "ndef" [[], [rd0]] .ndef 0).map (fun P => (run Cfg.asFound P 0 (start [.short 0])).1)
+example : (prog Cfg.asFound false "t3" "ndef" [[], [rd0]] .ndef 0).map (fun P => (run Cfg.asFound P 0 (start [.short 0])).1)
     = some (.exc .index) := by decide +kernel
-example : (prog Cfg.asFound "t2" "write" [[⟨⟨"s2", false⟩, .mute⟩, wr4]] .unit 0).map
+example : (prog Cfg.asFound false "t2" "write" [[⟨⟨"s2", false⟩, .mute⟩, wr4]] .unit 0).map
     (fun P => (run Cfg.asFound P 0 (start [.flt .transmission false])).1) = some (.exc .assertion) := by decide +kernel
-example : (prog Cfg.asFound "t4" "write" [[⟨⟨"up0", true⟩, .ok⟩]] .unit 5).map (fun P => (run Cfg.asFound P 0 (start [bl])).1)
+example : (prog Cfg.asFound false "t4" "write" [[⟨⟨"up0", true⟩, .ok⟩]] .unit 5).map (fun P => (run Cfg.asFound P 0 (start [bl])).1)
     = some (.exc .brokenLink) := by decide +kernel
 /-- repaired: the same scripts end in TagCommandError -/
-example : (prog Cfg.repaired "t4" "write" [[⟨⟨"up0", true⟩, .ok⟩]] .unit 5).map (fun P => (run Cfg.repaired P 0 (start [bl])).1)
+example : (prog Cfg.repaired true "t4" "write" [[⟨⟨"up0", true⟩, .ok⟩]] .unit 5).map (fun P => (run Cfg.repaired P 0 (start [bl])).1)
     = some (.exc (.tagCmd (-1))) := by decide +kernel
-example : (prog Cfg.repaired "t3" "write" [[rd0], [wr4]] .unit 0).map
+example : (prog Cfg.repaired true "t3" "write" [[rd0], [wr4]] .unit 0).map
     (fun P => (run Cfg.repaired P 0 (start [.flt .timeout false, .flt .timeout false, .flt .timeout false])).1)
     = some (.exc (.tagCmd 0)) := by decide +kernel
-example : (prog Cfg.repaired "t2" "write" [[⟨⟨"s2", false⟩, .mute⟩, wr4]] .unit 0).map
+example : (prog Cfg.repaired true "t2" "write" [[⟨⟨"s2", false⟩, .mute⟩, wr4]] .unit 0).map
     (fun P => (run Cfg.repaired P 0 (start [.flt .transmission false])).1) = some (.exc (.tagCmd (-1))) := by decide +kernel
 
 /-! non-vacuity of the hypotheses -/
 example : startsWith .timeout (5 + 1) (List.replicate 6 (.flt .timeout true)) := by simp [startsWith, List.replicate]
 /-- ISO-DEP: the I-block is lost, R(NAK) is answered with R(ACK), the retransmitted I-block is
 executed once -/
-example : (prog Cfg.repaired "t4" "write" [[⟨⟨"up0", true⟩, .ok⟩]] .unit 5).map
+example : (prog Cfg.repaired true "t4" "write" [[⟨⟨"up0", true⟩, .ok⟩]] .unit 5).map
     (fun P => let r := run Cfg.repaired P 0 (start [.flt .timeout false]); (r.1, r.2.applied.map (·.tok)))
     = some (.ok .unit, ["up0"]) := by decide +kernel
 example : LoopKind t12.kind ∧ 0 < t12.budget := ⟨Or.inl rfl, by decide⟩
@@ -165,7 +166,7 @@ example : startsWith .transmission 3 [.flt .transmission true, .flt .transmissio
 example : Benign (start [.flt .timeout true, .ans, .short 2, .flt .protocol false]) := by
   intro f r h; simp [start] at h; rcases h with ⟨h, _⟩ | ⟨h, _⟩ <;> subst h <;> simp [Fault.errno]
 /-- two timeouts are absorbed, the third answer ends the presence check with True -/
-example : (prog Cfg.repaired "t2" "present" [[rd0]] .true_ 0).map
+example : (prog Cfg.repaired true "t2" "present" [[rd0]] .true_ 0).map
     (fun P => (run Cfg.repaired P 0 (start [.flt .timeout false, .flt .timeout true])).1) = some (.ok .true_) := by
   decide +kernel
 
